@@ -561,12 +561,21 @@ def scramble_padding(rng, NF, keep_order=True):
     return out
 
 
-def judge(ctx, m, tag, data=True, forced=None, depth=1, node_face=None, coords="draw"):
+def judge(ctx, m, tag, data=True, forced=None, depth=1, node_face=None, coords="draw", threads=None):
     """one root mesh: Grid.get_dual (and UxDataArray.get_dual), then get_dual of the result, ... `depth`
     times; every grid of the chain is judged against its own parent"""
     import uxarray as ux
 
     inp = mesh_input(m, tag)
+    # numba thread count: a per-case dimension (a parallel per-node loop must give the same table under
+    # every schedule — Lean: construct_faces_row_local / construct_faces_schedule_independent)
+    import numba
+
+    nthreads = threads if threads else ctx.rng.choice([1, 2, 7, 16])
+    nthreads = max(1, min(int(nthreads), int(numba.config.NUMBA_NUM_THREADS)))
+    numba.set_num_threads(nthreads)
+    inp["threads"] = nthreads
+    ctx.hit(f"numba-threads={nthreads}")
     if coords == "draw":
         coords = draw_coords(ctx.rng, m)
     variant = ""
@@ -706,7 +715,8 @@ def run(ctx):
 def replay_input(ctx, inp, tag):
     m = mesh_from_input(inp)
     judge(ctx, m, tag, data="data_centre" in inp, forced=inp if "data_centre" in inp else None,
-          depth=int(inp.get("chain_depth", 1)), node_face=inp.get("node_face"), coords=inp.get("coords"))
+          depth=int(inp.get("chain_depth", 1)), node_face=inp.get("node_face"), coords=inp.get("coords"),
+          threads=inp.get("threads"))
 
 
 def replay(ctx, rp):
